@@ -267,9 +267,93 @@ func (pe *PE) eval(st *peState, e ast.Expr) Val {
 		return Val{}
 	case *ast.CallExpr:
 		return pe.evalCall(st, x)
+	case *ast.CompositeLit:
+		// []rune{…} / []int{…} of constants is tracked as a string of runes
+		if _, ok := pe.info.TypeOf(x).Underlying().(*types.Slice); ok {
+			var sb strings.Builder
+			for _, el := range x.Elts {
+				v := pe.eval(st, el)
+				if v.K != vInt {
+					return Val{}
+				}
+				sb.WriteRune(rune(v.I))
+			}
+			return Val{K: vStr, S: sb.String()}
+		}
+		return Val{}
+	case *ast.IndexExpr:
+		// constant map literal lookup, e.g. quoteMatchMap[sch]
+		if isMapType(pe.info.TypeOf(x.X)) {
+			k := pe.eval(st, x.Index)
+			if m, ok := pe.constMap(x.X); ok && k.K == vInt {
+				if v, ok := m[k.I]; ok {
+					return intVal(v)
+				}
+				return intVal(0)
+			}
+		}
+		return Val{}
+	case *ast.SliceExpr:
+		b := pe.eval(st, x.X)
+		if b.K == vStr {
+			rs := []rune(b.S)
+			lo, hi := int64(0), int64(len(rs))
+			if x.Low != nil {
+				v := pe.eval(st, x.Low)
+				if v.K != vInt {
+					return Val{}
+				}
+				lo = v.I
+			}
+			if x.High != nil {
+				v := pe.eval(st, x.High)
+				if v.K != vInt {
+					return Val{}
+				}
+				hi = v.I
+			}
+			if lo < 0 || hi > int64(len(rs)) || lo > hi {
+				return Val{}
+			}
+			return Val{K: vStr, S: string(rs[lo:hi])}
+		}
+		return Val{}
 	}
 	return Val{}
 }
+
+// constMap resolves a package-level map variable with constant integer keys and values
+func (pe *PE) constMap(e ast.Expr) (map[int64]int64, bool) {
+	id, ok := ast.Unparen(e).(*ast.Ident)
+	if !ok {
+		return nil, false
+	}
+	o := pe.info.Uses[id]
+	if o == nil {
+		return nil, false
+	}
+	lit := pe.findListLiteral(o)
+	if lit == nil {
+		return nil, false
+	}
+	out := map[int64]int64{}
+	for _, el := range lit.Elts {
+		kv, ok := el.(*ast.KeyValueExpr)
+		if !ok {
+			return nil, false
+		}
+		k, ok1 := pe.constOf(kv.Key)
+		v, ok2 := pe.constOf(kv.Value)
+		if !ok1 || !ok2 || k.K != vInt || v.K != vInt {
+			return nil, false
+		}
+		out[k.I] = v.I
+	}
+	return out, true
+}
+
+// unknownRune marks an element of a tracked string whose value the analysis does not know
+const unknownRune = '\uE000'
 
 func (pe *PE) callID(call *ast.CallExpr) string {
 	if f := calleeFunc(pe.info, call); f != nil {
@@ -402,6 +486,46 @@ func (pe *PE) evalCall(st *peState, call *ast.CallExpr) Val {
 	case "conv.int", "conv.rune", "conv.uint8", "conv.int64", "conv.int32":
 		if len(call.Args) == 1 {
 			return pe.eval(st, call.Args[0])
+		}
+	case "conv.string", "conv.slice":
+		if len(call.Args) == 1 {
+			v := pe.eval(st, call.Args[0])
+			if v.K == vStr {
+				return v
+			}
+			if v.K == vInt && id == "conv.string" {
+				return Val{K: vStr, S: string(rune(v.I))}
+			}
+		}
+	case "builtin.len":
+		if len(call.Args) == 1 {
+			if v := pe.eval(st, call.Args[0]); v.K == vStr {
+				return intVal(int64(len([]rune(v.S))))
+			}
+		}
+	case "builtin.append":
+		if len(call.Args) >= 1 {
+			base := pe.eval(st, call.Args[0])
+			if base.K != vStr {
+				return Val{}
+			}
+			out := base.S
+			if call.Ellipsis.IsValid() && len(call.Args) == 2 {
+				sp := pe.eval(st, call.Args[1])
+				if sp.K != vStr {
+					return Val{K: vStr, S: out + string(unknownRune)}
+				}
+				return Val{K: vStr, S: out + sp.S}
+			}
+			for _, a := range call.Args[1:] {
+				v := pe.eval(st, a)
+				if v.K == vInt {
+					out += string(rune(v.I))
+				} else {
+					out += string(unknownRune)
+				}
+			}
+			return Val{K: vStr, S: out}
 		}
 	}
 	return Val{}
